@@ -198,6 +198,12 @@ func c01fill(n *sbom.Node, f int) {
 	case fSuppliers, fOriginators:
 		name := rt.NondetString("person")
 		rt.Assume(rt.StrPlain(name))
+		if rt.NondetChoice("nameWithParentheses", 2) == 1 {
+			// a legal name that itself contains the characters the actor string uses as delimiters
+			mid := rt.NondetString("personmid")
+			rt.Assume(rt.StrPlain(mid))
+			name = name + " (" + mid + ") ltd"
+		}
 		p := &sbom.Person{Name: name, IsOrg: rt.NondetBool("isorg")}
 		if rt.NondetChoice("hasemail", 2) == 1 {
 			p.Email = rt.NondetString("email")
